@@ -15,7 +15,7 @@ Record ostate := mkO {
   o_sel : option N;           (* refresh mode last selected *)
   o_ref : cstate;             (* controller right after construction *)
   o_dirty : bool;             (* a setting that init honours was changed since construction *)
-  o_n : N                     (* number of calls since construction *)
+  o_n : N                     (* 0 right after construction, 1 once a call has been observed *)
 }.
 
 Definition colour_byte (P : pspec) (c : N) : N :=
@@ -128,7 +128,7 @@ Definition observe (P : pspec) (sm : sem) (lref : N -> list (N * list N)) (isig 
   let bg' := match o with OSetBg c => c | _ => o_bg os end in
   let sel' := sel_of (o_sel os) [o] in
   let dirty' := o_dirty os || match o with OSetLut (Some _) | OSetRefresh _ => true | _ => false end in
-  (mkO c1 bg' sel' (o_ref os) dirty' (o_n os + 1), fails).
+  (mkO c1 bg' sel' (o_ref os) dirty' 1, fails).
 
 (** the constructor: start of an observation *)
 Definition observe_new (P : pspec) (isig : list N) (bg0 : N) (ic : list icall) : ostate * list (N * clause) :=
